@@ -7,7 +7,10 @@ Model of the parts of chibicc that decide sizes, alignments and layouts (propert
 * `structLayout`     — parse.c `struct_decl` (offset assignment loop, final `align_to`).
 * `unionLayout`      — parse.c `union_decl`.
 * `Ty.sizeAlign`     — type.c `array_of` / `pointer_to` / `enum_type` / primitive literals, and
-                       `struct_members` (member alignment from `_Alignas`, flexible array member → `array_of(base, 0)`).
+                       `struct_members` (member alignment from the `_Alignas` specifiers as `declspec` accumulates them,
+                       flexible array member → `array_of(base, 0)`).
+* `varAlign`         — alignment of a declared object: new_var's `var->align = ty->align`, overridden by
+                       `if (attr->align) var->align = attr->align` (automatic, block-scope static, file scope).
 
 C `int` is modelled by unbounded `Int` (`/` and `%` are C's truncating `Int.tdiv` / `Int.tmod`); the theorems state
 the no-overflow bound where it matters.  Every C division is guarded: a zero divisor is the explicit outcome
@@ -166,9 +169,8 @@ def unionLayout (packed : Bool) (align0 : Int) (ms : List Mem) : Except Fail Lay
 
 /-! ## types (declarators, struct_members) -/
 
-/-- per-member declaration data that is not part of the member's type -/
+/-- per-member declaration data that is not part of the member's type or its alignment specifiers -/
 structure MemDecl where
-  alignas : Int                -- attr.align (0 = no `_Alignas`)
   bitWidth : Option Int
   named : Bool
   deriving DecidableEq, Repr
@@ -182,10 +184,14 @@ mutual
     | flex (elem : Ty)                       -- `T x[];` as the last member: array_of(elem, 0)
     | struct (packed : Bool) (aligned : Option Int) (ms : Members)
     | union (packed : Bool) (aligned : Option Int) (ms : Members)
+  /-- the `_Alignas` specifiers of one declaration, in source order -/
+  inductive Aligns where
+    | nil
+    | const (n : Int) (rest : Aligns)        -- `_Alignas(constant-expression)`
+    | type (t : Ty) (rest : Aligns)          -- `_Alignas(type-name)`
   inductive Members where
     | nil
-    | cons (d : MemDecl) (ty : Ty) (rest : Members)                 -- `_Alignas(d.alignas)` (constant; 0 = none)
-    | consT (d : MemDecl) (aty : Ty) (ty : Ty) (rest : Members)     -- `_Alignas(aty)` (type-name operand; d.alignas unused)
+    | cons (d : MemDecl) (as : Aligns) (ty : Ty) (rest : Members)
 end
 
 def primSize (t : TyName) : Int := ((primInfo t).1 : Nat)
@@ -205,20 +211,30 @@ mutual
     | .union p al ms => do
       let l ← unionLayout p (al.getD (STRUCT_INIT_ALIGN : Nat)) (← ms.toMems)
       pure (l.size, l.align)
-  /-- `struct_members`: mem->align = attr.align ? attr.align : mem->ty->align, where declspec left
-      attr.align = const_expr for `_Alignas(constant)` and typename(..)->align for `_Alignas(type-name)` (`Gen`) -/
+  /-- `declspec`, the `_Alignas` arm, run over the specifiers of one declaration: `acc` is attr->align so far (starts 0);
+      each specifier does attr->align = MAX(attr->align, align) with align = typename(..)->align or const_expr(..) -/
+  def Aligns.eval : Aligns → Int → Except Fail Int
+    | .nil, acc => .ok acc
+    | .const n rest, acc => rest.eval (alignasCombine acc (alignasOfConst n))
+    | .type t rest, acc => do
+      let (s, a) ← t.sizeAlign
+      rest.eval (alignasCombine acc (alignasOfType s a))
+  /-- `struct_members`: mem->align = attr.align ? attr.align : mem->ty->align -/
   def Members.toMems : Members → Except Fail (List Mem)
     | .nil => .ok []
-    | .cons d ty rest => do
+    | .cons d as ty rest => do
+      let attrAlign ← as.eval 0
       let (s, a) ← ty.sizeAlign
       let tl ← rest.toMems
-      pure ({ size := s, align := memberAlign (alignasOfConst d.alignas) a, bitWidth := d.bitWidth, named := d.named } :: tl)
-    | .consT d aty ty rest => do
-      let (sa, aa) ← aty.sizeAlign
-      let (s, a) ← ty.sizeAlign
-      let tl ← rest.toMems
-      pure ({ size := s, align := memberAlign (alignasOfType sa aa) a, bitWidth := d.bitWidth, named := d.named } :: tl)
+      pure ({ size := s, align := memberAlign attrAlign a, bitWidth := d.bitWidth, named := d.named } :: tl)
 end
+
+/-- alignment of an object declared with the specifiers `as` and type `ty` (all three storage classes use the same two
+    assignments): var->align = ty->align; if (attr->align) var->align = attr->align; -/
+def varAlign (as : Aligns) (ty : Ty) : Except Fail Int := do
+  let attrAlign ← as.eval 0
+  let (_, a) ← ty.sizeAlign
+  pure (if attrAlign ≠ 0 then attrAlign else a)
 
 /-- full layout of an aggregate (size, align, member placements); other types have no members -/
 def Ty.layout : Ty → Except Fail Layout
